@@ -142,17 +142,38 @@ def _spec(g, scale):
     """C06: write direction rides on `ser` lines (spec-decode of the written bytes); read direction: conformant streams
     making the other legal encoder choices"""
     r = g.r
+    prev = []
     for it in range(int(60 * scale)):
         conts = rand_conts(g)
         rc = r.choice([None, True, False])
         data = enc_stream(conts, run_cookie=rc, split_runs=r if r.random() < 0.3 else None)
         g.count("spec:%s" % ("runcookie" if (rc or any(k == "R" for _, k, _ in conts)) and conts else "norun"))
         g.count("spec:n%s" % ("<4" if len(conts) < 4 else ">=4"))
-        y = g.fresh()
-        e = r.choice(["readfrom", "frombuffer", "fromunsafe", "unmarshal", "base64"])
-        g.emit("spec %s %s %s %s" % (y, e, data.hex(), fnv_digest(conts)))
+        e = r.choice(["readfrom", "readfrom", "frombuffer", "fromunsafe", "unmarshal", "base64"])
+        opts = []
+        if prev and r.random() < 0.35:
+            y = r.choice(prev)          # a receiver that already holds another decoded stream
+            opts.append("reuse")
+            g.count("spec:reused-receiver")
+        else:
+            y = g.fresh()
+        if e == "readfrom" and r.random() < 0.7:
+            opts.append("chunk=%d" % r.choice([1, 1, 2, 3, 5, 7, 16, 64]))   # the stream arrives in pieces
+            g.count("spec:chunked")
+        g.emit(("spec %s %s %s %s %s" % (y, e, data.hex(), fnv_digest(conts), " ".join(opts))).strip())
         g.emit("card %s" % y)
         g.emit("toarr %s" % y)
+        prev.append(y)
+    # the empty stream (both cookies) into fresh and used receivers, through every entry point
+    for e in ["readfrom", "frombuffer", "fromunsafe", "unmarshal", "base64"]:
+        for rc in (None, None):      # (the run-capable cookie cannot express zero containers)
+            if not prev:
+                break
+            y = r.choice(prev)
+            g.emit("spec %s %s %s %s reuse" % (y, e, enc_stream([], run_cookie=rc).hex(), fnv_digest([])))
+            g.emit("card %s" % y)
+            g.emit("toarr %s" % y)
+            g.count("spec:empty-into-used")
     for it in range(int(15 * scale)):
         x = g.fresh()
         g.build(x)
